@@ -77,12 +77,20 @@ def finish(prop, tier, seed, eng, queries, level, rule, assumptions, outside, ex
     skipped = []
     holds = []
     unwind = []
+    step_fail = []
     for r in res:
         v = r["verdict"]
         if v == "hold":
             holds.append(r)
         elif v == "fail":
-            if r.get("confirmed"):
+            descs = [(f.get("description") or "") for f in (r.get("failed") or [])]
+            inv_only = descs and all(d.startswith("PROP Inv") for d in descs)
+            if r["desc"].get("inductive") or inv_only:
+                # a step from a state no history may reach, or an invariant-only failure, is never reported on
+                # its own (DESIGN 4.2): the API-only script queries of the same plan produce the replayable finding
+                r["reason"] = "INCONCLUSIVE (induction step / invariant failed; needs an API-only reproduction)"
+                step_fail.append(r)
+            elif r.get("confirmed"):
                 violations.append(r)
             else:
                 unconfirmed.append(r)
@@ -163,6 +171,7 @@ def finish(prop, tier, seed, eng, queries, level, rule, assumptions, outside, ex
         "queries_counterexample_unconfirmed": [brief(r) for r in unconfirmed],
         "queries_undecided": [brief(r) for r in undecided],
         "queries_vacuous": [brief(r) for r in vacuous],
+        "queries_step_inconclusive": [brief(r) for r in step_fail],
         "queries_skipped": [brief(r) for r in skipped],
         "solver_seconds": round(solver_s, 1),
         "decision_procedure_seconds": round(dp_s, 1),
@@ -198,7 +207,7 @@ def finish(prop, tier, seed, eng, queries, level, rule, assumptions, outside, ex
     }
     os.makedirs(os.path.join(VERIF, "evidence"), exist_ok=True)
     json.dump(ev, open(os.path.join(VERIF, "evidence", "%s.json" % prop), "w"), indent=1)
-    sys.stderr.write("[%s] tier=%s queries=%d hold=%d violated=%d unconfirmed=%d undecided=%d vacuous=%d skipped=%d wall=%.0fs\n" % (
-        prop, tier, len(queries), len(holds), len(violations), len(unconfirmed), len(undecided), len(vacuous), len(skipped),
+    sys.stderr.write("[%s] tier=%s queries=%d hold=%d violated=%d unconfirmed=%d undecided=%d step-inconclusive=%d vacuous=%d skipped=%d wall=%.0fs\n" % (
+        prop, tier, len(queries), len(holds), len(violations), len(unconfirmed), len(undecided), len(step_fail), len(vacuous), len(skipped),
         time.time() - eng.t0))
     return rc
